@@ -44,6 +44,7 @@ def instances(tier):
         if kind == "implicit":
             out.append(dict(id="steps-%s-N2-solverfail" % fam, family=fam, N=2, mode="steps", root_success="fork", budget=b))
     for fam in (["euler", "sympl_euler"] if tier == "quick" else ["euler", "rk4", "midpoint", "sympl_euler", "abas5o6h"]):
+        out.append(dict(id="two-calls-%s-N4" % fam, family=fam, N=4, mode="twocalls", budget=b))
         out.append(dict(id="shift-%s-N%d" % (fam, min(N, 3)), family=fam, N=min(N, 3), mode="shift", rhs_mode="uf", budget=b))
         out.append(dict(id="reflect-%s-N%d" % (fam, min(N, 3)), family=fam, N=min(N, 3), mode="reflect", rhs_mode="uf", budget=b))
     return out
@@ -94,6 +95,38 @@ def scenario(c, inst):
             c.check("c04.no_step_longer_than_requested", c.all([c.le(s, adt, 1) for s in steps]), regions=regions)
         else:
             c.check("c04.no_step_longer_than_requested", c.all([c.le(s, adt, 1) for s in steps]), regions=regions)
+        return
+
+    if mode == "twocalls":
+        # several integrate(t) calls: within every call all steps but its last have the requested magnitude, none is longer
+        st, built = run(spans.build_system, c, inst, t0, tf, dt0)
+        if st == "exc":
+            c.check("c04.constructs", False, info=repr(built))
+            return
+        a, rhs, log = built
+        T1 = c.real("T1")
+        c.assume((T1 - t0) * (tf - T1) > 0)
+        c.assume(adt <= absval(c, T1 - t0))
+        c.assume(adt <= absval(c, tf - T1))
+        bounds = []
+        for k, target in enumerate((T1, None)):
+            n0 = len(a.t)
+            cb = spans.cap_callback(c, cap + 1, kind)
+            st, r = run(a.integrate, callback=cb) if target is None else run(a.integrate, target, callback=cb)
+            if st == "exc":
+                cause = getattr(r, "__cause__", None)
+                if isinstance(cause, StepCap):
+                    c.check("c04.twocalls.terminates_within_bound", False, info=repr(cause))
+                else:
+                    c.check("c04.twocalls.no_exception", False, info=repr(r) + " / " + repr(cause))
+                return
+            bounds.append((n0 - 1, len(a.t) - 1))
+        T = list(a.t)
+        c.note("n_rows", len(T))
+        for k, (i0, i1) in enumerate(bounds):
+            steps = [absval(c, T[i + 1] - T[i]) for i in range(i0, i1)]
+            c.check("c04.twocalls.non_final_steps_of_each_call_have_requested_size", c.all([c.eq(s_, adt, 1) for s_ in steps[:-1]]), info=dict(call=k, steps=len(steps)))
+            c.check("c04.twocalls.no_step_longer_than_requested", c.all([c.le(s_, adt, 1) for s_ in steps]), info=dict(call=k))
         return
 
     # ---- product runs (shift / reflection): same autonomous uninterpreted rhs
